@@ -81,6 +81,20 @@ func (a *API) SearchPromises(id string, state string, tags map[string]string, li
 			return nil, RequestValidationError(err)
 		}
 
+		// the signing key is not a secret, so the decoded request must be
+		// validated like any other (the kernel asserts these)
+		if cursor.Next == nil || cursor.Next.Id == "" || len(cursor.Next.States) == 0 || cursor.Next.Limit < 1 || cursor.Next.Limit > 100 {
+			return nil, RequestValidationError(errors.New("The field cursor is invalid."))
+		}
+		for _, state := range cursor.Next.States {
+			if !state.In(promise.Pending | promise.Resolved | promise.Rejected | promise.Canceled | promise.Timedout) {
+				return nil, RequestValidationError(errors.New("The field cursor is invalid."))
+			}
+		}
+		if cursor.Next.Tags == nil {
+			cursor.Next.Tags = map[string]string{}
+		}
+
 		return cursor.Next, nil
 	}
 
@@ -146,6 +160,15 @@ func (a *API) SearchSchedules(id string, tags map[string]string, limit int, curs
 		cursor, err := t_api.NewCursor[t_api.SearchSchedulesRequest](cursor)
 		if err != nil {
 			return nil, RequestValidationError(err)
+		}
+
+		// the signing key is not a secret, so the decoded request must be
+		// validated like any other (the kernel asserts these)
+		if cursor.Next == nil || cursor.Next.Id == "" || cursor.Next.Limit < 1 || cursor.Next.Limit > 100 {
+			return nil, RequestValidationError(errors.New("The field cursor is invalid."))
+		}
+		if cursor.Next.Tags == nil {
+			cursor.Next.Tags = map[string]string{}
 		}
 
 		return cursor.Next, nil
